@@ -212,7 +212,7 @@ func (r *Rand) Intn(n int) int {
 	}
 	return int(r.U64() % uint64(n))
 }
-func (r *Rand) Bool() bool       { return r.U64()&1 == 1 }
+func (r *Rand) Bool() bool        { return r.U64()&1 == 1 }
 func (r *Rand) Chance(p int) bool { return r.Intn(100) < p }
 func (r *Rand) Pick(xs []int) int { return xs[r.Intn(len(xs))] }
 func (r *Rand) Bytes(n int) []byte {
